@@ -203,10 +203,12 @@ Proof.
     + intros [-> ->]. auto.
     + intros [-> Heq]. inversion Heq. auto.
   - (* Tick *)
-    rewrite andb_true_iff, nil_b_spec. destruct (rrun R); cbn [negb orb].
+    rewrite andb_true_iff, nil_b_spec. destruct (rrun R), (rlate R); cbn [negb orb].
+    + split; intros [-> H]; (split; [reflexivity|]); [discriminate|reflexivity].
     + rewrite tick_spec. split; intros [-> H]; (split; [reflexivity|]).
-      * intros _. exact H.
-      * apply H. reflexivity.
+      * intros _ _. exact H.
+      * apply H; reflexivity.
+    + split; intros [-> H]; (split; [reflexivity|]); [discriminate|reflexivity].
     + split; intros [-> H]; (split; [reflexivity|]); [discriminate|reflexivity].
 Qed.
 
